@@ -27,6 +27,7 @@ import (
 	"github.com/rpcpool/yellowstone-faithful/compactindexsized"
 	"github.com/rpcpool/yellowstone-faithful/gsfa"
 	"github.com/rpcpool/yellowstone-faithful/indexes"
+	"github.com/rpcpool/yellowstone-faithful/indexmeta"
 	"github.com/rpcpool/yellowstone-faithful/zzverif/vh"
 )
 
@@ -504,6 +505,85 @@ func TestVerif_C13(t *testing.T) {
 			}
 			rep.Count(fmt.Sprintf("file:gsfa-%s bytes=%d", victim, len(full)))
 		}
+	}
+	// ---------------- address index with MULTI-RECORD chains (an address with more than one flushed batch): a cut
+	// inside the trailing 9-byte previous-record pointer of the newest record must not end the walk silently
+	{
+		gdir := filepath.Join(vh.OutDir(), "c13gsfa-multi")
+		_ = os.RemoveAll(gdir)
+		_ = os.MkdirAll(filepath.Join(vh.OutDir(), "c13gsfa-tmp"), 0o755)
+		w, err := gsfa.NewGsfaWriter(gdir, indexmeta.Meta{}, 2, vfxCidFromHex(tr.Objects[0].Cid), indexes.NetworkMainnet, filepath.Join(vh.OutDir(), "c13gsfa-tmp"))
+		if err != nil {
+			t.Fatalf("setup failed: %v", err)
+		}
+		_ = os.MkdirAll(filepath.Join(vh.OutDir(), "c13gsfa-tmp"), 0o755)
+		counts := []int{1003, 2005, 7}
+		var keys []solana.PublicKey
+		for i := range counts {
+			keys = append(keys, vfxAccount(7, i))
+		}
+		n := 0
+		for round := 0; round < 2005; round++ {
+			var pks solana.PublicKeySlice
+			for i, c := range counts {
+				if round < c {
+					pks = append(pks, keys[i])
+				}
+			}
+			n++
+			if err := w.Push(uint64(1000+n*50), uint64(100+n%7), tr.base()+uint64(round/5), pks, true, round%3 != 0, round%4 == 0); err != nil {
+				t.Fatalf("setup failed: push: %v", err)
+			}
+		}
+		if err := w.Close(); err != nil {
+			t.Fatalf("setup failed: close: %v", err)
+		}
+		look := func(dir string, k solana.PublicKey) string {
+			return safe(func() string {
+				g, err := gsfa.NewGsfaReader(dir)
+				if err != nil {
+					return "err"
+				}
+				defer g.Close()
+				locs, err := g.Get(context.Background(), k, 1000000)
+				if err != nil {
+					return vc13Err(err)
+				}
+				return fmt.Sprintf("v:%d entries, first %v", len(locs), locs[:1])
+			})
+		}
+		complete := map[string]string{}
+		for i, k := range keys {
+			complete[k.String()] = look(gdir, k)
+			if !strings.HasPrefix(complete[k.String()], fmt.Sprintf("v:%d entries", counts[i])) {
+				rep.Note("multi-record gsfa fixture: key %d reads back %s (expected %d entries)", i, complete[k.String()], counts[i])
+			}
+		}
+		names := []string{string(indexes.Kind_PubkeyToOffsetAndSize) + ".index", "linked-log", "manifest"}
+		full := rd(filepath.Join(gdir, "linked-log"))
+		cutset := map[int]bool{}
+		for c := len(full); c >= 0 && c > len(full)-700; c-- { // every byte of the newest records (written last)
+			cutset[c] = true
+		}
+		for i := 0; i < 60; i++ {
+			cutset[x.rng.Intn(len(full)+1)] = true
+		}
+		d := filepath.Join(vh.OutDir(), "c13gsfa-multi-cut")
+		for cut := range cutset {
+			_ = os.RemoveAll(d)
+			_ = os.MkdirAll(d, 0o755)
+			for _, nme := range names {
+				b := rd(filepath.Join(gdir, nme))
+				if nme == "linked-log" {
+					b = b[:cut]
+				}
+				_ = os.WriteFile(filepath.Join(d, nme), b, 0o644)
+			}
+			for _, k := range keys {
+				x.observe("gsfa-linked-log-multirecord", cut, len(full), k.String()[:10], complete[k.String()], look(d, k), nil)
+			}
+		}
+		rep.Count(fmt.Sprintf("file:gsfa-linked-log-multirecord bytes=%d", len(full)))
 	}
 	rep.Sample(map[string]interface{}{"spec": tr.Spec, "objects": len(tr.Objects), "signatures": len(sigs)})
 	if err := cases.Write(); err != nil {
